@@ -13,7 +13,7 @@ import (
 // symbolic runs use (the engines are then checked on configurations that real
 // documents produce, and native replays see the same configuration).
 func TestVerifShapes(t *testing.T) {
-	for fam := 0; fam <= 4; fam++ {
+	for fam := 0; fam <= 5; fam++ {
 		for _, s := range shapes(fam) {
 			if len(s.ns.Relations) == 0 {
 				continue
